@@ -23,7 +23,7 @@ RULE = (
 ASSUMPTIONS = ["integer products below 2^53 are exact in float64", "Fraction(float) is exact"]
 N = {"quick": 160, "thorough": 4000}
 REQUIRE = {"quick": {"lattice_boundary_events": 1000, "law_triples": 100000, "theta_dirs": 50000,
-                     "icecream_cones": 8, "float_events": 2000, "batched_vs_single": 500}}
+                     "icecream_cones": 8, "float_events": 2000, "batched_vs_single": 500, "integer_dtype_cone_cases": 20}}
 TIMEOUT = {"quick": 900, "thorough": 3600}
 
 INT_W = [
@@ -44,9 +44,20 @@ def as_bool(x):
 def lattice_exact(mon, rng):
     Wl = INT_W[int(rng.integers(len(INT_W)))]
     Wi = np.array(Wl, dtype=np.int64)
-    order = gen.make_order("W", W=Wi.astype(float))
+    if rng.random() < 0.4:
+        # the cone matrix stored with an INTEGER dtype (as in the class docstring): answers must not depend on W's dtype
+        from vopy.order import PolyhedralConeOrder
+        from vopy.ordering_cone import OrderingCone
+
+        key = ("intW", tuple(map(tuple, Wl)))
+        if key not in gen._CONE_CACHE:
+            gen._CONE_CACHE[key] = PolyhedralConeOrder(OrderingCone(np.array(Wl, dtype=np.int64)))
+        order = gen._CONE_CACHE[key]
+        mon.count("integer_dtype_cone_cases")
+    else:
+        order = gen.make_order("W", W=Wi.astype(float))
     m = Wi.shape[1]
-    den = int(rng.choice([1, 1, 2, 8]))
+    den = int(rng.choice([1, 2, 8, 8]))
     A = rng.integers(-6, 7, size=(60, m))
     B = rng.integers(-6, 7, size=(60, m))
     # force boundary cases: b = a - (vector on a facet)
